@@ -601,7 +601,7 @@ def write_evidence(pid, P, tier, seed, t0, rep, fatal, results=None, extra=None)
         if s not in samples:
             samples.append(s)
     trusted = sorted(rep["trusted"]) + [
-        "govc itself (VC generator over go/ssa, ~4 kloc, tested by the must-fail corpus)", "go/ssa naive form agrees with the compiler",
+        "govc itself (VC generator over go/ssa, ~8.8 kloc, tested by the must-fail corpus)", "go/ssa naive form agrees with the compiler",
         "SMT solvers z3 5.1.0 / z3 4.8.12 / cvc5 1.0",
     ]
     int_mode = [f["name"] for f in rep["functions"] if f["mode"] == "int"]
